@@ -5,6 +5,7 @@ inspected, is_ok/is_err, converted and then consumed, replaced by a default), pa
 (unwrap/expect), discard (`.ok()`/`.err()` whose result is unused, `let _ =`, dropped temporary)."""
 import re
 from facts import callee_name
+import cfg as C
 
 RESULT_TY = re.compile(r'^std::result::Result<')
 ADAPT_RESULT = re.compile(r'^std::result::Result::<T, E>::(map_err|inspect_err|inspect|map|and_then|or_else|or|and)$')
@@ -107,6 +108,8 @@ class ErrorDiscipline:
             dst = s['place']
             if how == 'discr':
                 out.add('handle')
+                if self._err_arm_reports(body, bb, dst):
+                    out.add('report')       # `if let Err(e) = r { eprint_err(..) }` / `match r { Err(e) => eprint_err(..), .. }`
             elif how in ('ref', 'rawptr'):
                 # &result handed somewhere: follow the reference local
                 sub = self.classify_local(body, dst['l'], depth + 1, seen) if not dst['p'] else {'handle'}
@@ -162,6 +165,28 @@ class ErrorDiscipline:
         if not any_use:
             out.add('discard')
         return out
+
+    def _err_arm_reports(self, body, bb, dst):
+        """the discriminant read in block bb (into place dst) is switched on, and the blocks reached only through the Err arm call a reporter"""
+        t = body.blocks[bb]['term']
+        if t['k'] != 'switch' or dst['p'] or t['discr']['k'] not in ('copy', 'move') or t['discr']['place']['l'] != dst['l']:
+            return False
+        arms = {str(a): tb for a, tb in t['arms']}
+        err = arms.get('1', t['otherwise'] if '0' in arms else None)
+        ok = arms.get('0', t['otherwise'] if '1' in arms else None)
+        if err is None or ok is None or err == ok:
+            return False
+        if not hasattr(body, '_dom'):
+            body._dom = C.dominators(body)
+        only_err = {x for x, ds in body._dom.items() if err in ds}
+        for x in only_err:
+            tt = body.blocks[x]['term']
+            if tt['k'] != 'call':
+                continue
+            n = callee_name(tt)
+            if REPORTERS.search(n) or (n in self.f.bodies and self.closure_reports(n)):
+                return True
+        return False
 
     def _option_used(self, body, local, depth=0):
         u = self.uses(body)
